@@ -103,7 +103,7 @@ fn gen(ctx: &GenCtx, i: u64) -> Option<Run> {
             others.push(KeySpec::RawPublic { hex: format!("03{}", "ff".repeat(48)) });
         }
         KeySpec::Rsa { fixture } => {
-            for f in 0..crate::keys::RSA_FIXTURES.len() {
+            for f in 0..crate::keys::RSA_2048_FIXTURES {
                 if f != *fixture {
                     others.push(KeySpec::Rsa { fixture: f });
                 }
@@ -149,6 +149,30 @@ fn gen(ctx: &GenCtx, i: u64) -> Option<Run> {
         spec.hash_seed = r.next();
         let v = rb.verifier(spec);
         rb.push(Op::Deliver { msg: t.msg, to: v, now_ns: Ns(at), ticks: vec![], twin: n % 5 == 0 && vlayer != Layer::Core, control: None, key: None });
+    }
+    // a second issuer under ANOTHER key, active after the first one: its tokens must not verify under the
+    // first key and vice versa (nothing of the first signing may stick)
+    {
+        let k2 = match &kspec {
+            KeySpec::Rsa { fixture } => {
+                // prefer a fixture whose PKCS#8 encoding has the same length
+                let same_len: Vec<usize> = (0..crate::keys::RSA_2048_FIXTURES).filter(|f| f != fixture && crate::keys::RSA_FIXTURES[*f].0.len() == crate::keys::RSA_FIXTURES[*fixture].0.len()).collect();
+                if same_len.is_empty() { other_key_for(proto, &kspec, &mut r) } else { KeySpec::Rsa { fixture: *r.pick(&same_len) } }
+            }
+            _ => other_key_for(proto, &kspec, &mut r),
+        };
+        let key2 = rb.key(k2);
+        let msg2 = ascii!(r, 1 + r.usize(30));
+        let opts = IssueOpts { proto, layer, key: key2, footer: t.footer.clone(), assertion: t.assertion.clone(), now, message: msg2.clone(), json_payload: Some(serde_json::json!({"data": msg2})), extra_claims: vec![] };
+        let t2 = issue(&mut rb, &mut r, opts);
+        for (tok, vk) in [(&t2, key), (&t, key2), (&t2, key2)] {
+            let vlayer = random_layer(&mut r);
+            let mut spec = plain_spec(tok, vlayer);
+            spec.key = vk;
+            spec.default_validators = vlayer == Layer::Batteries;
+            let v = rb.verifier(spec);
+            rb.deliver(tok.msg, v, at);
+        }
     }
     // heal: right key, fresh verifier
     let vlayer = if raw { Layer::Core } else { random_layer(&mut r) };
